@@ -19,7 +19,7 @@ def main():
     for patch in sorted(glob.glob(os.path.join(VERIF, "mutants", "*.patch"))):
         name = os.path.basename(patch)[:-6]
         prop = name.split("_")[0].upper()
-        if want and prop not in want:
+        if want and prop not in want and not any(w.lower() in name for w in want):
             continue
         wt = tempfile.mkdtemp(prefix="verif-mut-")
         os.rmdir(wt)
